@@ -169,9 +169,10 @@ def values_of(ts):  # noqa: C901, PLR0911, PLR0912
     if head == "Counter":
         return [Counter("xxy"), Counter()]
     if head == "Union":
+        # every value of every case: the falsy ones (0, '', empty containers) matter next to None
         out = []
         for c in ts[1:]:
-            out.append(values_of(c)[0])
+            out.extend(values_of(c))
         return out
     if head == "Model":
         name = ts[1]
